@@ -532,6 +532,46 @@ pub fn run(out: &mut Out, tier: &str, seed: u64, prop: &str) {
             }
         }
         "C02" => {
+            // pointwise under environments whose versions carry pre / post / dev / local parts (the law is purely algebraic, and
+            // the edges are release-only while the environment is not): every ordered pair of comparisons against one literal
+            {
+                let decorate = |e: &CEnv| -> Vec<CEnv> {
+                    let mut v = vec![CEnv { vers: e.vers.clone(), strs: e.strs.clone(), extras: e.extras.clone() }];
+                    for suffix in ["rc1", ".post1", ".dev0", "+local.1", "a0"] {
+                        let mut e2 = CEnv { vers: e.vers.clone(), strs: e.strs.clone(), extras: e.extras.clone() };
+                        e2.vers[0] = format!("{}{}", e.vers[0], suffix);
+                        e2.vers[1] = format!("{}{}", e.vers[1], suffix);
+                        if pep440_rs::Version::from_str(&e2.vers[1]).is_ok() && pep440_rs::Version::from_str(&e2.vers[0]).is_ok() { v.push(e2); }
+                    }
+                    v
+                };
+                let mut groups: Vec<Vec<Term>> = Vec::new();
+                for k in [1usize, 0] { for lit in ["3.9.1", "3.8"] {
+                    let mut g: Vec<Term> = (0..6).map(|op| Term::V(k, op, lit.to_string())).collect();
+                    g.push(Term::VI(k, false, vec![lit.to_string(), "3.10".into()]));
+                    g.push(Term::VI(k, true, vec![lit.to_string()]));
+                    groups.push(g);
+                } }
+                for g in &groups {
+                    for (i, x) in g.iter().enumerate() { for (j, y) in g.iter().enumerate() {
+                        if !big && (i * 3 + j) % 2 == 1 { continue; }
+                        let (Some(ta), Some(tb)) = (try_build(out, "C02", x), try_build(out, "C02", y)) else { return };
+                        let (mut mand, mut mor) = (ta.clone(), ta.clone());
+                        mand.and(tb.clone()); mor.or(tb.clone());
+                        let nota = ta.negate();
+                        for base in region_envs(&mut rng, &[x, y], 4) {
+                            for e in decorate(&base) {
+                                out.evaluations += 1;
+                                let (va, vb) = (e.eval(&ta), e.eval(&tb));
+                                out.stat("c02.decorated_env_points");
+                                if e.eval(&mand) != (va && vb) || e.eval(&mor) != (va || vb) || e.eval(&nota) == va {
+                                    out.oracle_fail("C02", &format!("and / or / negate not pointwise under an environment with a decorated version: operands {va}/{vb}, and {}, or {}, not {}", e.eval(&mand), e.eval(&mor), e.eval(&nota)), serde_json::json!({"a": x.line(), "b": y.line(), "env": e.line(), "python_full_version": e.vers[1], "implementation_version": e.vers[0]}));
+                                }
+                            }
+                        }
+                    } }
+                }
+            }
             for i in 0..n_ops {
                 let a = &items[rng.below(items.len())];
                 let b = &items[rng.below(items.len())];
@@ -623,6 +663,32 @@ pub fn run(out: &mut Out, tier: &str, seed: u64, prop: &str) {
                                 out.stat("c04.exact_equal_pairs");
                             }
                         }
+                    }
+                }
+            }
+            // markers PARSED from text in random layouts (blanks, tabs and line breaks wherever the grammar allows them, also
+            // inside in-lists), judged against the meaning of the text: a verdict about the wrong marker is a wrong verdict
+            {
+                let pp = pools();
+                let mut texts: Vec<Term> = vec![
+                    Term::VI(2, false, vec!["3.7".into(), "3.8".into()]), Term::V(2, 0, "3.8".into()), Term::VI(2, true, vec!["3.8".into(), "3.9".into()]), Term::V(2, 0, "3.9".into()),
+                    Term::VI(1, false, vec!["3.9.1".into(), "3.10".into(), "3.11.2".into()]), Term::V(1, 0, "3.11.2".into()), Term::VI(0, true, vec!["3.9".into()]), Term::V(0, 0, "3.9".into()),
+                ];
+                for _ in 0..(if big { 300 } else { 60 }) { texts.push(crate::mparse::gen_parse_term(&mut rng, &pp, 2)); }
+                let mut parsed: Vec<Item> = Vec::new();
+                for t in &texts {
+                    for _ in 0..3 {
+                        let Some(text) = crate::mparse::layout(&mut rng, t, true) else { continue };
+                        let Ok(Ok(tree)) = catch_unwind(AssertUnwindSafe(|| MarkerTree::from_str(&text))) else { continue };
+                        let d = dump(&tree);
+                        parsed.push(Item { term: t.clone(), tree, dump: d });
+                        out.stat("c04.parsed_from_layout");
+                    }
+                }
+                let n = parsed.len();
+                for i in 0..n {
+                    for j in [(i + 1) % n, (i + 3) % n, (i * 7 + 5) % n] {
+                        pairs.push((mk(&parsed[i]), mk(&parsed[j])));
                     }
                 }
             }
@@ -1129,6 +1195,15 @@ pub fn run(out: &mut Out, tier: &str, seed: u64, prop: &str) {
                     for (k1, k2) in [(1usize, 12usize), (12, 1), (3, 8), (0, 9)] {
                         for (o1, o2) in [(0usize, 1usize), (1, 0), (3, 4), (2, 5), (6, 7), (8, 9)] {
                             pairs.push((Term::S(k1, o1, "posix".into()), Term::S(k2, o2, "posix".into())));
+                        }
+                    }
+                    // the two orientations of `in` on the SAME key and string are unrelated variables (`k in 's'` asks whether k is
+                    // a substring of s, `'s' in k` whether s is one of k), whatever their polarity
+                    for k in [12usize, 1] {
+                        for v in ["linux", "a"] {
+                            for o1 in [6usize, 7, 8, 9] { for o2 in [6usize, 7, 8, 9] {
+                                if o1 != o2 { pairs.push((Term::S(k, o1, v.into()), Term::S(k, o2, v.into()))); }
+                            } }
                         }
                     }
                     pairs.push((Term::X(false, "dev".into()), Term::X(true, "test".into())));
